@@ -110,7 +110,7 @@ def spec_rewrite(a, b):
         o = L.l3
         if k == "set_nw_src": b = b[:o + 12] + struct.pack("!I", a["v"]) + b[o + 16:]
         elif k == "set_nw_dst": b = b[:o + 16] + struct.pack("!I", a["v"]) + b[o + 20:]
-        else: b = b[:o + 1] + bytes([a["v"]]) + b[o + 2:]
+        else: b = b[:o + 1] + bytes([(a["v"] & 0xfc) | (b[o + 1] & 0x03)]) + b[o + 2:]      # OpenFlow 1.0: the 6-bit DSCP field; ECN stays
         return refresh(b)
     if k in ("set_tp_src", "set_tp_dst"):
         if not L.ip or L.l4 is None: return b
@@ -140,8 +140,8 @@ class C12(Check):
     lean_targets = ["drv_c12"]
     driver = "drv_c12"
     theorems = ["Pox.C12.port_guards", "Pox.C12.flood_excludes_ingress", "Pox.C12.counters_exact", "Pox.C12.actions_spec",
-                "Pox.C12.checksums_ok", "Pox.C12.rx_spec", "Pox.C12.rx_obj_spec", "Pox.C12.outputs_only", "Pox.C12.buffers_spec", "Pox.C12.port_mod_spec",
-                "Pox.C12.enqueue_d7_defect", "Pox.C12.table_recount_d8_defect", "Pox.C12.vlan_pcp_c121_defect", "Pox.C12.strip_vlan_c122_defect"]
+                "Pox.C12.checksums_ok", "Pox.C12.rx_spec", "Pox.C12.rx_obj_spec", "Pox.C12.outputs_only", "Pox.C12.actions_total", "Pox.C12.buffers_spec", "Pox.C12.port_mod_spec",
+                "Pox.C12.enqueue_d7_defect", "Pox.C12.table_recount_d8_defect", "Pox.C12.vlan_pcp_c121_defect", "Pox.C12.strip_vlan_c122_defect", "Pox.C12.nw_tos_c126_defect"]
     _SW = "pox/datapaths/switch.py"
     anchors = [("pox/datapaths/switch.py", "SoftwareSwitchBase." + n) for n in (
         "_rx_port_mod", "rx_packet", "_lookup_packet", "_set_port_config_bit", "_output_packet", "_process_actions_for_packet",
@@ -173,13 +173,14 @@ class C12(Check):
     coverage_cases = 4000
     search_budget = {"quick": 3000, "thorough": 30000}
 
-    # Which of the repairs D7 / D8 / C12-1 / C12-2 the tree under test has is read off the source: the statement that matters is
+    # Which of the repairs D7 / D8 / C12-1 / C12-2 / C12-6 the tree under test has is read off the source: the statement that matters is
     # pattern-matched in its function (flag True = the unrepaired line, as in Model/Actions.lean `Variant`).  A shape that is neither
     # is not guessed: the repaired variant is assumed and the correspondence run reports what differs.
     VARIANT_SHAPES = {
         "d7": ("_action_enqueue", {True: "self._output_packet(packet, action.tp_port, in_port)", False: "self._output_packet(packet, action.port, in_port)"}),
         "d8": ("_output_packet", {True: "self.rx_packet(packet, in_port)", False: "self._lookup_packet(packet, in_port)"}),
         "c121": ("_action_set_vlan_pcp", {True: "packet.payload.pcp = action.vlan_pcp", False: "packet.payload.pcp = action.vlan_pcp & 7"}),
+        "c126": ("_action_set_nw_tos", {True: "nw.tos = action.nw_tos", False: "nw.tos = nw.tos & 3 | action.nw_tos & 252"}),
         "c122": ("_action_strip_vlan", {True: "if isinstance(packet.payload, vlan):", False: "if isinstance(packet.payload, vlan) and packet.payload.payload is not None:"})}
 
     def detect_variant(self):
@@ -516,6 +517,12 @@ class C12(Check):
             tci_only = bool(mo) and len(mo.group(1)) == len(mo.group(2)) and mo.group(1)[:28] == mo.group(2)[:28] and mo.group(1)[32:] == mo.group(2)[32:]
             if tci_only and any(a["a"] == "set_vlan_vid" and a["v"] > 4095 for a in acts): return "bytes:set_vlan_vid:out-of-range"
             if tci_only and any(a["a"] == "set_vlan_pcp" and a["v"] > 7 for a in acts): return "action:set_vlan_pcp:out-of-range:struct.error"
+            if mo and any(a["a"] == "set_nw_tos" for a in acts) and len(mo.group(1)) == len(mo.group(2)):
+                g, e = bytes.fromhex(mo.group(1)), bytes.fromhex(mo.group(2))
+                if len(g) >= 34:
+                    L = Loc(e)
+                    if L.ip and g[:L.l3 + 1] == e[:L.l3 + 1] and (g[L.l3 + 1] ^ e[L.l3 + 1]) & 0xfc == 0 and g[L.l3 + 1] != e[L.l3 + 1] and g[L.l3 + 2:L.l3 + 10] == e[L.l3 + 2:L.l3 + 10]:
+                        return "bytes:set_nw_tos:ecn-bits"
             rw = sorted(set(k for k in ks if k in REWRITES))
             return "bytes:" + ("+".join(rw) if rw else "no-rewrite")
         if "port_mod" in failure: return "port_mod:" + re.sub(r"[^a-zA-Z_ ]+", "", failure.split(":", 1)[1]).strip().replace(" ", "-")[:40]
